@@ -3,6 +3,7 @@ import Bardolph.Driver.Vm
 import Bardolph.Driver.Ast
 import Bardolph.Driver.Web
 import Bardolph.Driver.Output
+import Bardolph.Driver.Snapshot
 /-! All driver handlers; `dispatch` routes one request line. -/
 namespace Bardolph.Driver
 
@@ -11,7 +12,8 @@ def handlers : List (String → List String → Option String) := [
   VmD.handle,
   AstD.handle,
   Web.handle,
-  Out.handle
+  Out.handle,
+  Snap.handle
 ]
 
 def dispatch (line : String) : String :=
